@@ -2,7 +2,8 @@
 
 
 def run(ctx):
-    ctx.lean_obligations(["SV.Props.C06", "SV.Props.C06b"], drivers=["svdriver_c06"])
+    ctx.regen_go2lean()
+    ctx.lean_obligations(["SV.Props.C06", "SV.Props.C06b", "SV.Props.C06gen"], drivers=["svdriver_c06"])
     quick = ctx.tier == "quick"
     b = ctx.go_test_binary("fs/remote", "h_remote")
     if b:
